@@ -9,6 +9,7 @@ import (
 	"path/filepath"
 	"strings"
 	"sync"
+	"sync/atomic"
 	"time"
 )
 
@@ -22,6 +23,11 @@ var solvers = []solverSpec{
 	{"z3-4.8.12", func(t int, f string) []string { return []string{"z3", fmt.Sprintf("-T:%d", t), f} }},
 	{"cvc5-1.0.3", func(t int, f string) []string { return []string{"cvc5", fmt.Sprintf("--tlimit=%d", t*1000), f} }},
 }
+
+// failFast (selftests only): once an obligation has failed, the remaining ones are skipped - the run only has to show
+// that the check reports a violation. Never used by the registered commands.
+var failFast bool
+var stopSolving atomic.Bool
 
 var retriesLeft = 4
 var retryMu sync.Mutex // retries run one at a time so that they do not compete with each other
@@ -139,6 +145,10 @@ func solveOne(vc *VC, o *Obligation, file string, cfg solveConfig) {
 	if o.Result != "" {
 		return // pre-decided (unsupported construct, missing target)
 	}
+	if failFast && stopSolving.Load() {
+		o.Result = "skipped"
+		return
+	}
 	text := queryText(vc, o, nil)
 	o.Bytes = len(text)
 	if err := os.WriteFile(file, []byte(text), 0o644); err != nil {
@@ -238,5 +248,8 @@ func solveOne(vc *VC, o *Obligation, file string, cfg solveConfig) {
 	}
 	if keep {
 		o.Model = file
+		if failFast {
+			stopSolving.Store(true)
+		}
 	}
 }
